@@ -397,6 +397,9 @@ func (op *HOp) render() string {
 		return fmt.Sprintf("%s = [%s, %s = %s, %s]", op.T.String(), op.Src.String(), op.Src.String(), litText(op.Lit), op.Src.String())
 	case "arg-alias":
 		return fmt.Sprintf("print \"R\", [pair(%s, %s += 1)]", op.Src.String(), op.Src.String())
+	case "opassign-incidx":
+		// `a op= b` means `a = a op b`: a target with a side effect is evaluated twice
+		return fmt.Sprintf("%s[%s++] %s= %s", op.T.String(), op.Src.String(), op.Op, fmtNum(op.Num))
 	case "scratch-call":
 		// fewer arguments than parameters; the omitted parameters are named like the caller's variables x, y, z
 		return fmt.Sprintf("print \"R\", [scratch(%s)]", litText(op.Lit))
@@ -918,6 +921,41 @@ func (h *Heap) apply(op *HOp) (string, error) {
 		}
 		h.cell(op.Src.Base).V = hNum(src.Num + 1)
 		return "[[" + fmtNum(src.Num) + "," + fmtNum(src.Num+1) + "]]", nil
+	case "opassign-incidx":
+		arrv, err := h.readPath(op.T)
+		if err != nil {
+			return "", err
+		}
+		ctr, err := h.readPath(*op.Src)
+		if err != nil {
+			return "", err
+		}
+		if arrv.K != 'a' || ctr.K != 'n' || len(op.Src.Steps) != 0 || op.Src.Base == "$" || op.Src.Base == op.T.Base {
+			return "", errUnsupported{"needs an array and a separate numeric counter variable"}
+		}
+		i := int(ctr.Num)
+		if float64(i) != ctr.Num || i < 0 || i+1 >= len(arrv.Arr.Items) {
+			return "", errUnsupported{"counter out of range"}
+		}
+		next := arrv.Arr.Items[i+1].V
+		if next.K != 'n' {
+			return "", errUnsupported{"needs numbers"}
+		}
+		var res float64
+		switch op.Op {
+		case "+":
+			res = next.Num + op.Num
+		case "-":
+			res = next.Num - op.Num
+		case "*":
+			res = next.Num * op.Num
+		default:
+			return "", errUnsupported{"operator"}
+		}
+		// T[i++] op= k  ==  T[i++] = T[i++] op k : the target is slot i, the operand slot i+1, the counter moves twice
+		arrv.Arr.Items[i].V = hNum(res)
+		h.cell(op.Src.Base).V = hNum(float64(i + 2))
+		return "", nil
 	case "scratch-call":
 		r := ScanStream([]byte(op.Lit))
 		if r.Status != RefClean || len(r.Values) != 1 {
@@ -1303,7 +1341,7 @@ func opText(c *HeapCase, i int) string {
 var heapKeys = []string{"a", "b", "c", "k", "list", "m", "n"}
 var heapVarNames = []string{"x", "y", "z", "w", "q"}
 var heapScalarLits = []string{"1", "2", "7", "0", "42", "2.5", "-3", `"s"`, `"abc"`, `"t u"`, "true", "false", "null"}
-var heapContainerLits = []string{"[1, 2]", "[]", "{}", `{"a": 1}`, `{"k": [1, 2, 3], "m": {"n": 5}}`, `[{"a": 1}, {"a": 2}, 3]`, "[[1], [2, 3]]", `{"list": [10, 20, 30]}`, `[5, {"b": {"c": 1}}]`}
+var heapContainerLits = []string{"[4, 5, 6, 7]", "[1, 2]", "[]", "{}", `{"a": 1}`, `{"k": [1, 2, 3], "m": {"n": 5}}`, `[{"a": 1}, {"a": 2}, 3]`, "[[1], [2, 3]]", `{"list": [10, 20, 30]}`, `[5, {"b": {"c": 1}}]`}
 
 func genHeapDoc(t *Tape) string {
 	docs := []string{
@@ -1402,7 +1440,10 @@ func genHeapCase(t *Tape, maxOps int) *HeapCase {
 	n := 3 + t.Draw(maxOps)
 	for tries := 0; len(c.Ops) < n && tries < n*8; tries++ {
 		var op HOp
-		switch t.Weighted(6, 6, 3, 3, 5, 3, 1, 1, 1, 2, 1, 1, 1, 1, 1, 2) {
+		switch t.Weighted(6, 6, 3, 3, 5, 3, 1, 1, 1, 2, 1, 1, 1, 1, 1, 2, 2) {
+		case 16:
+			src := HPath{Base: c.Vars[t.Draw(nv)]}
+			op = HOp{Kind: "opassign-incidx", T: genHeapPath(t, h, c.Vars, false), Src: &src, Op: []string{"+", "-", "*"}[t.Draw(3)], Num: float64(1 + t.Draw(9))}
 		case 14:
 			op = HOp{Kind: "scratch-call", Lit: heapScalarLits[t.Draw(len(heapScalarLits))]}
 		case 15:
@@ -1620,7 +1661,7 @@ func (h *Heap) dryRun(op *HOp) error {
 			}
 		}
 		return nil
-	case "scratch-call":
+	case "scratch-call", "opassign-incidx":
 		return nil
 	case "lit-alias", "arg-alias", "forin-incr", "forin-kv-incr":
 		// cheap to decide by running it on a throw-away heap built from the same history is not available here:
